@@ -112,16 +112,13 @@ def hostile_layout(ctx, variant, api):
         return
     sri = r.value
     if variant == "index-is-file":
-        scn.env.vfs.lookup(SBytes.of(CACHE)).children.pop(next(k for k, (n, c) in scn.env.vfs.lookup(SBytes.of(CACHE)).children.items() if n.concrete() == b"index-v5"))
-        scn.log.pop() if False else None
+        scn.fs_remove_dir_all(CACHE + "/index-v5")
         scn.fs_write(CACHE + "/index-v5", b"i am a file")
     elif variant == "content-is-file":
-        d = scn.env.vfs.lookup(SBytes.of(CACHE))
-        d.children.pop(next(k for k, (n, c) in d.children.items() if n.concrete() == b"content-v2"))
+        scn.fs_remove_dir_all(CACHE + "/content-v2")
         scn.fs_write(CACHE + "/content-v2", b"i am a file")
     elif variant == "tmp-is-file":
-        d = scn.env.vfs.lookup(SBytes.of(CACHE))
-        d.children.pop(next(k for k, (n, c) in d.children.items() if n.concrete() == b"tmp"))
+        scn.fs_remove_dir_all(CACHE + "/tmp")
         scn.fs_write(CACHE + "/tmp", b"i am a file")
     elif variant == "bucket-is-dir":
         scn.fs_mkdir_p(bucket_path_of(scn, key))
@@ -140,9 +137,6 @@ def hostile_layout(ctx, variant, api):
         scn.fs_remove(cp)
         scn.fs_symlink(ROOT + "/nowhere", cp)
         key = "seed"
-    elif variant == "cache-missing":
-        scn.env.vfs.root.children.pop(next(k for k, (n, c) in scn.env.vfs.root.children.items() if n.concrete() == b"root"))
-        scn.env.vfs.mkdir_p(SBytes.of(ROOT))
     all_ops(ctx, scn, tag, key, "a cache directory with a hostile layout (%s)" % variant)
 
 
